@@ -569,11 +569,27 @@ pub async fn tls_cell(pki: Arc<Pki>, dict: Arc<Dictionary>, spec: Vec<String>) -
                         if s.write_all(&f).await.is_err() {
                             return 0;
                         }
-                        let mut one = [0u8; 1];
-                        match tokio::time::timeout(Duration::from_millis(700), s.read(&mut one)).await {
-                            Ok(Ok(n)) if n > 0 => 1,
-                            _ => 0,
-                        }
+                        // whatever comes back within the deadline; it counts only if it is a Diameter answer to this
+                        // request (a TLS alert in reply to clear text is no answer)
+                        let mut got: Vec<u8> = vec![];
+                        let _ = tokio::time::timeout(Duration::from_millis(700), async {
+                            let mut buf = [0u8; 4096];
+                            loop {
+                                match s.read(&mut buf).await {
+                                    Ok(0) | Err(_) => break,
+                                    Ok(n) => got.extend_from_slice(&buf[..n]),
+                                }
+                                if got.len() >= 20 {
+                                    let l = u32::from_be_bytes([0, got[1], got[2], got[3]]) as usize;
+                                    if got[0] != 1 || l < 20 || got.len() >= l {
+                                        break;
+                                    }
+                                }
+                            }
+                        })
+                        .await;
+                        let is_answer = got.len() >= 20 && got[0] == 1 && u32::from_be_bytes([got[12], got[13], got[14], got[15]]) == 4200 + i as u32;
+                        is_answer as usize
                     }));
                 }
                 for t in tasks {
